@@ -179,3 +179,10 @@ func tierN(tier string, quick, thorough int) int {
 	}
 	return quick
 }
+
+func refNeg(curve string, a ref.Pt) ref.Pt {
+	if isEd(curve) {
+		return ref.EdNeg(a)
+	}
+	return ref.SecpNeg(a)
+}
